@@ -387,6 +387,135 @@ pub fn c13news() -> bool {
     bad
 }
 
+
+/// C05: every combination of query kind, author filter, key filter, sort, direction, include-empty,
+/// offset and limit on a two-author state with prefix-related keys, deletion markers, an entry pruned
+/// by a prefix deletion (stale by-key index row) and equal timestamps is compared with the query's
+/// specification (latest-per-key: greatest timestamp among ALL authors, then the author filter).
+pub fn c05() -> bool {
+    use iroh_docs::store::{SortBy, SortDirection};
+    use iroh_docs::{Record, SignedEntry};
+    let now = std::time::SystemTime::now().duration_since(std::time::UNIX_EPOCH).unwrap().as_micros() as u64;
+    let (h, l) = hash(b"x");
+    let mut store = Store::memory();
+    let ns = NamespaceSecret::from_bytes(&[21u8; 32]);
+    let a1 = Author::from_bytes(&[22u8; 32]);
+    let a2 = Author::from_bytes(&[23u8; 32]);
+    let id = ns.id();
+    let mut replica = store.new_replica(ns.clone()).unwrap();
+    // (author, key, timestamp offset below now (smaller = newer), deletion marker?)
+    let script: &[(&Author, &[u8], u64, bool)] = &[
+        (&a1, b"k", 5000, false),
+        (&a2, b"k", 1000, false),    // newest at "k" is a2's
+        (&a1, b"m", 1000, false),
+        (&a2, b"m", 1000, false),    // tie at "m"
+        (&a1, b"p/x", 9000, false),
+        (&a1, b"p/y", 9000, false),
+        (&a1, b"p/", 8000, true),    // prunes p/x and p/y of a1: stale by-key rows, and a deletion marker
+        (&a2, b"p/x", 7000, false),  // other author's entry below the marker survives
+        (&a1, b"t", 2000, true),     // newest at "t" is a deletion marker
+        (&a2, b"t", 3000, false),
+        (&a2, b"", 4000, false),     // the empty key
+        (&a1, b"z\xff", 4000, false),
+    ];
+    for (au, key, off, del) in script.iter() {
+        let rec = if *del { Record::empty(now - off) } else { Record::new(h, l, now - off) };
+        let e = SignedEntry::from_parts(&ns, au, key, rec);
+        let _ = block_on(replica.insert_remote_entry(e, [1u8; 32], iroh_docs::ContentStatus::Missing));
+    }
+    drop(replica);
+    // the held set, from a plain full scan (the oracle filters/sorts it itself)
+    let held: Vec<SignedEntry> = store.get_many(id, Query::all().include_empty()).unwrap().collect::<Result<Vec<_>, _>>().unwrap();
+    let mut bad = false;
+    let authors = [None, Some(a1.id()), Some(a2.id())];
+    let keyfs: Vec<(u8, &[u8])> = vec![(0, b""), (1, b"k"), (1, b"p/"), (2, b"p/"), (2, b""), (2, b"z"), (1, b"t"), (2, b"q")];
+    let mut n = 0u32;
+    for latest in [false, true] {
+        for au in authors.iter() {
+            for (kf_kind, kf) in keyfs.iter() {
+                for key_author_sort in [false, true] {
+                    if latest && !key_author_sort {
+                        continue;
+                    }
+                    for desc in [false, true] {
+                        for inc in [false, true] {
+                            for offset in [0u64, 1, 2] {
+                                for limit in [None, Some(0u64), Some(1), Some(2)] {
+                                    // ---- the query
+                                    let dir = if desc { SortDirection::Desc } else { SortDirection::Asc };
+                                    let q: Query = if latest {
+                                        let mut b = Query::single_latest_per_key().sort_direction(dir).offset(offset);
+                                        if let Some(a) = au { b = b.author(*a); }
+                                        b = match kf_kind { 1 => b.key_exact(kf), 2 => b.key_prefix(kf), _ => b };
+                                        if inc { b = b.include_empty(); }
+                                        if let Some(l) = limit { b = b.limit(l); }
+                                        b.build()
+                                    } else {
+                                        let mut b = Query::all().sort_by(if key_author_sort { SortBy::KeyAuthor } else { SortBy::AuthorKey }, dir).offset(offset);
+                                        if let Some(a) = au { b = b.author(*a); }
+                                        b = match kf_kind { 1 => b.key_exact(kf), 2 => b.key_prefix(kf), _ => b };
+                                        if inc { b = b.include_empty(); }
+                                        if let Some(l) = limit { b = b.limit(l); }
+                                        b.build()
+                                    };
+                                    let got: Vec<(Vec<u8>, [u8; 32])> = store.get_many(id, q).unwrap().map(|e| { let e = e.unwrap(); (e.key().to_vec(), *e.author().as_bytes()) }).collect();
+                                    // ---- the specification
+                                    let kmatch = |e: &SignedEntry| match kf_kind { 1 => e.key() == *kf, 2 => e.key().starts_with(kf), _ => true };
+                                    let amatch = |e: &SignedEntry| au.map(|a| e.author() == a).unwrap_or(true);
+                                    let mut sel: Vec<&SignedEntry> = if latest {
+                                        let mut keys: Vec<&[u8]> = held.iter().filter(|e| kmatch(e)).map(|e| e.key()).collect();
+                                        keys.sort();
+                                        keys.dedup();
+                                        keys.iter().filter_map(|k| {
+                                            let top = held.iter().filter(|e| e.key() == *k).map(|e| e.timestamp()).max().unwrap();
+                                            // ties: whichever the store returned is accepted if it is one of the newest
+                                            let cands: Vec<&SignedEntry> = held.iter().filter(|e| e.key() == *k && e.timestamp() == top).collect();
+                                            // (the one it returned, else one that the author filter drops, else any)
+                                            let pick = cands.iter().find(|c| got.iter().any(|g| g.0 == c.key() && g.1 == *c.author().as_bytes())).copied()
+                                                .or_else(|| cands.iter().find(|c| !amatch(c)).copied())
+                                                .unwrap_or(cands[0]);
+                                            Some(pick)
+                                        }).filter(|e| amatch(e)).collect()
+                                    } else {
+                                        held.iter().filter(|e| kmatch(e) && amatch(e)).collect()
+                                    };
+                                    if !inc { sel.retain(|e| !e.is_empty()); }
+                                    if key_author_sort {
+                                        sel.sort_by(|x, y| (x.key(), x.author().as_bytes()).cmp(&(y.key(), y.author().as_bytes())));
+                                    } else {
+                                        sel.sort_by(|x, y| (x.author().as_bytes(), x.key()).cmp(&(y.author().as_bytes(), y.key())));
+                                    }
+                                    if desc { sel.reverse(); }
+                                    let want: Vec<(Vec<u8>, [u8; 32])> = sel.iter().skip(offset as usize).take(limit.map(|l| l as usize).unwrap_or(usize::MAX)).map(|e| (e.key().to_vec(), *e.author().as_bytes())).collect();
+                                    n += 1;
+                                    if got != want {
+                                        if !bad {
+                                            eprintln!("c05: latest={latest} author={:?} keyfilter=({kf_kind},{:?}) key_author_sort={key_author_sort} desc={desc} include_empty={inc} offset={offset} limit={limit:?}\n  got  {:?}\n  want {:?}",
+                                                au.map(|a| a.as_bytes()[0]), String::from_utf8_lossy(kf),
+                                                got.iter().map(|g| (String::from_utf8_lossy(&g.0).to_string(), g.1[0])).collect::<Vec<_>>(),
+                                                want.iter().map(|g| (String::from_utf8_lossy(&g.0).to_string(), g.1[0])).collect::<Vec<_>>());
+                                        }
+                                        bad = true;
+                                    }
+                                    // point lookups agree with the exact-key/author query
+                                    if !latest && *kf_kind == 1 && offset == 0 && limit.is_none() {
+                                        if let Some(a) = au {
+                                            let p = store.get_exact(id, *a, kf, inc).unwrap();
+                                            if p.is_some() != !got.is_empty() { bad = true; eprintln!("c05: get_exact disagrees with the query for key {:?}", String::from_utf8_lossy(kf)); }
+                                        }
+                                    }
+                                }
+                            }
+                        }
+                    }
+                }
+            }
+        }
+    }
+    eprintln!("c05: {n} queries compared, held entries: {}; mismatch: {bad}", held.len());
+    bad
+}
+
 pub fn run(id: &str) -> Option<bool> {
     Some(match id {
         "d2" => d2(),
@@ -397,6 +526,7 @@ pub fn run(id: &str) -> Option<bool> {
         "c17" => c17(),
         "c13enc" => c13enc(),
         "c13news" => c13news(),
+        "c05" => c05(),
         other => return iroh_docs::verif_incrate::witness::run(other),
     })
 }
